@@ -459,9 +459,19 @@ type racParam struct {
 
 func (W *World) racParams(fn *ssa.Function) ([]racParam, bool) {
 	var out []racParam
+	res := fn.Signature.Results()
+	for i := 0; i < res.Len(); i++ {
+		if strings.Contains(goTypeName(res.At(i).Type()), "/") {
+			return nil, false // a result type the harness cannot name
+		}
+	}
 	for _, p := range fn.Params {
 		t := p.Type()
 		n := p.Name()
+		switch n {
+		case "fmt", "big", "rand", "os", "strings", "time", "errors", "reflect", "strconv", "testing":
+			return nil, false // the parameter would shadow a package the harness uses
+		}
 		rp := racParam{name: n}
 		switch {
 		case isPtrTo(t, "Decimal"):
